@@ -1,8 +1,8 @@
 (* C09 — Assignability implies containment; overlap detection is complete.
    ONLY the property theorems, each closed by `exact <lemma>` and followed by Print Assumptions.
    Models: Types.v (registry), Rel.v (check_type_relation, `current_cfg` = /repo after the fix:
-   commits 5207502 (F7), 2246a47 (F12), 2932723 (F29), 7ba69a0 (F25p), e7dcc7d (F55)), Narrow.v (incl. f9e893e = F26,
-   2bb39f1 = F56).  Specification: Sem.v (`inhab`).
+   commits 5207502 (F7), 2246a47 (F12), 2932723 (F29), 7ba69a0 (F25p), e7dcc7d (F55), dea0269 (F25)), Narrow.v (incl.
+   f9e893e = F26, 2bb39f1 = F56, d6406e8 = F87).  Specification: Sem.v (`inhab`).
 
    What is PROVED (for every registry, unbounded):
      compat_sound_partial      is_compatible => containment, on the cycle-free fragment
@@ -22,13 +22,12 @@
                                after the call, which extends the one before), a b first-order cycle-free
      complement_keeps_partial  a value of o that is not a value of nr is a value of compute_complement o nr,
                                o nr first-order cycle-free, registry well formed (`wfregb`), F7 repair
-     filter_keeps_partial      filter_variants_by_field WITH the overlap test (proposed repair) keeps every tuple
+     filter_keeps_partial      filter_variants_by_field with the overlap test (as in /repo since the F87 repair) keeps every tuple
                                value of the parent whose tested field is a value of the tested type (first-order
-                               cycle-free parent with non-union variants); as it is in /repo: refuted (filter_refuted)
+                               cycle-free parent with non-union variants); as found: refuted (filter_refuted_F87_as_found)
      register_type/tuple_monotone, inhab_monotone   registry monotonicity
    What is REFUTED on the real code (witnesses, vm_compute; replayed by ./check):
-     F7, F12, F25p, F29 (as found; repaired since, repaired answers pinned), F23 (a, c),
-     F25 (callable).
+     F7, F12, F25, F25p, F29, F87 (as found; repaired since, repaired answers pinned), F23 (a, c), F24.
    What is NOT proved (kept here in full; judged on every run by the semantic oracle on the REAL
    functions' answers, exhaustive value enumeration to depth 3):
 
@@ -42,10 +41,9 @@
         run, 0 failures since the F29 repair)
      overlap_complete : forall P a b, closedb P a = true -> closedb P b = true ->
         (exists n v, inhab P n [] v a /\ inhab P n [] v b) -> types_overlap P a b = true
-        (false as stated: F25 for callable/process; recursive first-order fragment unproved)
+        (recursive fragment unproved; partial / callable / process arms validated only)
      intersect_keeps / complement_keeps (general) : false on recursive unions (F24, witness
-        C09_complement_refuted_F24) and where callable types meet (F25, witness
-        C09_intersect_refuted_F25); PROVED on the first-order cycle-free fragment:
+        C09_complement_refuted_F24); PROVED on the first-order cycle-free fragment:
         intersect_keeps_partial, complement_keeps_partial below (NarrowProofs.v: every narrowing
         function only extends the registry; union_type_ids keeps every value of every piece; a
         `never` answer of intersect_pair's default arm is justified by overlap_complete_partial,
@@ -151,16 +149,22 @@ Theorem C09_complement_refuted_F24 : complement_violation current_cfg reg_F24 4 
 Proof. exact F24_current. Qed.
 Print Assumptions C09_complement_refuted_F24.
 
-Theorem C09_intersect_refuted_F25 : intersect_violation current_cfg reg_F25fn 3 4 (VFun 6) = true.
-Proof. exact F25_intersect_current. Qed.
-Print Assumptions C09_intersect_refuted_F25.
+Theorem C09_intersect_refuted_F25_as_found : intersect_violation f55_cfg reg_F25fn 3 4 (VFun 6) = true.
+Proof. exact F25_intersect_as_found. Qed.
+Print Assumptions C09_intersect_refuted_F25_as_found.
 
 (* filter_variants_by_field (narrowing a parent after a runtime test of one field succeeded): as it is in
    /repo it drops values (refuted); with the overlap test (hooks/fix_filter_variants.patch) it keeps every
    tuple value of the parent whose tested field is a value of the tested type *)
-Theorem C09_filter_refuted : filter_violation current_cfg current_filter_by_overlap reg_filter 5 0 0 v_filter (VInt 0%Z) = true.
-Proof. exact filter_current. Qed.
-Print Assumptions C09_filter_refuted.
+Theorem C09_filter_refuted_F87_as_found : filter_violation current_cfg false reg_filter 5 0 0 v_filter (VInt 0%Z) = true.
+Proof. exact F87_as_found. Qed.
+Print Assumptions C09_filter_refuted_F87_as_found.
+
+Theorem C09_F87_repaired :
+  current_filter_by_overlap = true /\
+  filter_violation current_cfg current_filter_by_overlap reg_filter 5 0 0 v_filter (VInt 0%Z) = false.
+Proof. exact (conj eq_refl (proj1 F87_repaired)). Qed.
+Print Assumptions C09_F87_repaired.
 
 Theorem C09_filter_keeps_partial : forall cfg rel_fuel P parent idx must P' r,
   filter_variants_by_field cfg rel_fuel true P parent idx must = Some (P', r) ->
@@ -226,10 +230,16 @@ Proof.
 Qed.
 Print Assumptions C09_compat_refuted_F23.
 
-Theorem C09_overlap_refuted_F25 :
-  overlap_violation current_cfg reg_F25fn 3 4 (VFun 6) = true.
-Proof. exact F25_callable_current. Qed.
-Print Assumptions C09_overlap_refuted_F25.
+Theorem C09_overlap_refuted_F25_as_found :
+  overlap_violation f55_cfg reg_F25fn 3 4 (VFun 6) = true.
+Proof. exact F25_callable_as_found. Qed.
+Print Assumptions C09_overlap_refuted_F25_as_found.
+
+Theorem C09_F25_repaired :
+  types_overlap_with current_cfg 1000 reg_F25fn 3 4 = Some true /\
+  intersect_violation current_cfg reg_F25fn 3 4 (VFun 6) = false.
+Proof. exact (conj F25_callable_repaired F25_intersect_repaired). Qed.
+Print Assumptions C09_F25_repaired.
 
 (* ---- refuted as found, repaired since: F25p (7ba69a0), F29 (2932723) ---- *)
 Theorem C09_overlap_refuted_F25p_as_found :
